@@ -50,7 +50,12 @@ RECURSIVE Desc(_, _)
 Desc(F, n) == {n} \cup UNION {Desc(F, k) : k \in Kids(F, n)}
 
 \* ---------------------------------------------------------------- validity: a child sticks out of its parent, or two siblings overlap
-SticksT(F, T, p, k) == F[k].off + T.len[k] > T.len[p]
+\* A child occupies [off, off + len) of its parent, the parent is [0, len(parent)).  A child can stick out on BOTH sides: in front of
+\* the start of its parent (a negative offset - the child may lie wholly in front or straddle offset 0) and behind its end.  An offset
+\* is a plain integer of the API (the merge configuration says "the offset could be also negative"), so both sides belong to the case space.
+SticksFront(F, k) == F[k].off < 0
+SticksBehindT(F, T, p, k) == F[k].off + T.len[k] > T.len[p]
+SticksT(F, T, p, k) == SticksFront(F, k) \/ SticksBehindT(F, T, p, k)
 OverlapT(F, T, j, k) == T.len[j] > 0 /\ T.len[k] > 0 /\ F[j].off < F[k].off + T.len[k] /\ F[k].off < F[j].off + T.len[j]
 RECURSIVE ValidT(_, _, _)
 ValidT(F, T, n) == /\ \A k \in T.kids[n] : ValidT(F, T, k) /\ ~SticksT(F, T, n, k)
@@ -60,8 +65,10 @@ ValidStrict(F, n) == ValidT(F, Tab(F), n)
 RECURSIVE DebatableT(_, _, _)
 DebatableT(F, T, n) == \/ \E k \in T.kids[n] : DebatableT(F, T, k)
                        \/ \E j, k \in T.kids[n] : j # k /\ T.len[k] = 0 /\ F[j].off < F[k].off /\ F[k].off < F[j].off + T.len[j]
-\* what validate() must say:  "ok", "error", or "any" where the property is silent
-VerdictT(F, T, n) == IF ~ValidT(F, T, n) THEN "error" ELSE IF DebatableT(F, T, n) THEN "any" ELSE "ok"
+\* what validate() of image n must say:  "ok", "error", or "any" where the property is silent.  The clause speaks about CHILDREN inside
+\* their parents: the own offset of the image that is validated (a root, or a sub-image validated on its own) is no part of the tree
+\* below it - when it is negative the verdict is not settled (the code refuses such an image).
+VerdictT(F, T, n) == IF ~ValidT(F, T, n) THEN "error" ELSE IF DebatableT(F, T, n) \/ F[n].off < 0 THEN "any" ELSE "ok"
 Verdict(F, n) == VerdictT(F, Tab(F), n)
 
 \* ---------------------------------------------------------------- the source of byte i (0-based) of the export of node n
@@ -151,12 +158,16 @@ UpdateOffsets(n) ==                                                \* update_off
 \*   kind = "block": `size` bytes of `pat`;  kind = "file": segs = <<[at, d], ...>> is what the file holds, in address order and apart
 \*   (a plain binary file is one segment at 0; HEX / S-record files carry addresses: a byte at address a of the file lands at offset + a).
 \* place[k] = where the first byte of region k lands in the merged image.
-\*   offset given   : exactly at offset (+ the first address of the file) - whatever its value (0 included) and wherever the region is listed
+\*   offset given   : exactly at offset (+ the first address of the file) - whatever its value (0 included, negative included) and wherever
+\*                    the region is listed.  A region that lands below 0 is a child that sticks out in front of the merged image: the
+\*                    tree is built as described and validate() must refuse it (clause SticksFront).
 \*   offset omitted : "after the previous one", aligned up.  For regions listed in address order that is the end of everything listed so
 \*                    far.  For a listing out of address order the sentence can be read as the end of the region listed just before or as
 \*                    the end of all regions listed before: BOTH readings are allowed here (lemma ReadingsCoincide of BinImageCfg: they are
 \*                    the same place for in-order listings).  The first region has nothing in front of it: it starts at 0.
 \*                    A file that carries non-zero addresses and has no offset is not settled by the text: outside the domain.
+\*                    "After" regions that all end below 0 is not settled either (there is nothing of them inside the image to be
+\*                    behind): a reading is only offered when the end it refers to is not negative.
 \* The tree: image 1 = the merged image; every region is a sub-image of it, in listing order; a file region is an image (fill pattern of
 \* the merge: it has none of its own) that holds one sub-image per segment of the file.
 NonePat == [kind |-> "none", b |-> <<>>]
@@ -164,7 +175,7 @@ FirstAt(r) == IF r.kind = "file" THEN r.segs[1].at ELSE 0
 RLen(r) == IF r.kind = "file" THEN r.segs[Len(r.segs)].at + Len(r.segs[Len(r.segs)].d) - r.segs[1].at ELSE r.size
 PrevEnd(rs, pl, k) == IF k = 1 THEN 0 ELSE pl[k - 1] + RLen(rs[k - 1])
 AllEnd(rs, pl, k) == Max({pl[j] + RLen(rs[j]) : j \in 1..(k - 1)})
-AppendChoices(cfg, pl, k) == {Align(PrevEnd(cfg.regions, pl, k), cfg.al), Align(AllEnd(cfg.regions, pl, k), cfg.al)}
+AppendChoices(cfg, pl, k) == {Align(e, cfg.al) : e \in {x \in {PrevEnd(cfg.regions, pl, k), AllEnd(cfg.regions, pl, k)} : x >= 0}}
 SegsOK(r) == /\ Len(r.segs) >= 1
              /\ \A i \in 1..Len(r.segs) : Len(r.segs[i].d) >= 1 /\ r.segs[i].at >= 0
              /\ \A i \in 1..(Len(r.segs) - 1) : r.segs[i].at + Len(r.segs[i].d) < r.segs[i + 1].at
@@ -176,9 +187,8 @@ CfgOK(cfg) == /\ cfg.size >= 0 /\ cfg.al >= 1
                    /\ r.hasoff \/ FirstAt(r) = 0
 PlacesOK(cfg, pl) == /\ Len(pl) = Len(cfg.regions)
                      /\ \A k \in DOMAIN pl :
-                          /\ pl[k] >= 0                                          \* nothing lands below the start of the merged image
-                          /\ IF cfg.regions[k].hasoff THEN pl[k] = cfg.regions[k].off + FirstAt(cfg.regions[k])
-                             ELSE pl[k] \in AppendChoices(cfg, pl, k)
+                          IF cfg.regions[k].hasoff THEN pl[k] = cfg.regions[k].off + FirstAt(cfg.regions[k])   \* (may be below 0)
+                          ELSE pl[k] \in AppendChoices(cfg, pl, k)                                             \* (never is)
 RECURSIVE CfgNodes(_, _, _, _)
 CfgNodes(cfg, pl, k, F) ==
   IF k > Len(cfg.regions) THEN F
@@ -204,7 +214,7 @@ RECURSIVE Places(_, _, _)
 Places(cfg, pl, k) == IF k > Len(cfg.regions) THEN {pl}
                       ELSE LET r == cfg.regions[k]
                                cs == IF r.hasoff THEN {r.off + FirstAt(r)} ELSE AppendChoices(cfg, pl, k) IN
-                           UNION {Places(cfg, Append(pl, c), k + 1) : c \in {x \in cs : x >= 0}}
+                           UNION {Places(cfg, Append(pl, c), k + 1) : c \in cs}
 
 DataOf(len) == [i \in 1..len |-> DataByte(Len(forest) + 1, i - 1)]
 DoNew == \E off \in Offs : \E size \in Sizes : \E al \in Aligns : \E bl \in BinLens : \E pat \in Pats : New(off, size, al, DataOf(bl), pat)
